@@ -79,7 +79,10 @@ def gen_case(seed, tier='quick', max_geos=None, degenerate=False):
   r2 = random.Random(seed * 7919 + 13)
   v = r2.random()
   # what happened to the TBRMatchedMarkets object (and its data object) before the search under test
-  case['history'] = (None if v < 0.6 else 'prior-search' if v < 0.7 else 'other-params-first' if v < 0.85 else 'second-matcher')
+  case['history'] = (None if v < 0.55 else 'prior-search' if v < 0.65 else 'other-params-first' if v < 0.78 else
+                     'second-matcher' if v < 0.9 else 'longer-window-first')
+  if degenerate and r2.random() < 0.1:
+    par['iroas'] = r2.choice([0.0, 0])            # accepted (iroas >= 0): every required budget is infinite
   if degenerate and n >= 2 and r2.random() < 0.2:
     # a geo whose response is a net change: it oscillates and sums to exactly zero (share 0.0)
     g = r2.randrange(n)
@@ -131,7 +134,7 @@ def finish_params(case):
     hi = min(0.999, max(lo * 1.5, sum(shares[-2:]) * (0.4 + u[1])))
     if lo < hi:
       par['treatment_share_range'] = (lo, hi)
-  if case['want_budget']:
+  if case['want_budget'] and par['iroas'] > 0:
     p0 = P.TBRMMDesignParameters(**{k: v for k, v in par.items()})
     mm = MM.TBRMatchedMarkets(tbrmmdata.TBRMMData(frame_of(case), 'response', elig_of(case)), p0)
     imp = sorted(float(v) for v in mm.geo_req_impact.values if v == v)
@@ -156,10 +159,20 @@ def finish_params(case):
   return par
 
 
-def build(case):
+def build(case, with_history=False):
   from matched_markets.methodology import tbrmmdata, tbrmmdesignparameters as P, tbrmatchedmarkets as MM
   par = P.TBRMMDesignParameters(**{k: (tuple(v) if isinstance(v, list) else v) for k, v in finish_params(case).items()})
   data = tbrmmdata.TBRMMData(frame_of(case), 'response', elig_of(case))
+  if with_history and case.get('history') == 'longer-window-first':
+    # the same data object served an analysis over a longer pretest window before (sensitivity analysis)
+    try:
+      p0 = P.TBRMMDesignParameters(**dict({k: (tuple(v) if isinstance(v, list) else v) for k, v in finish_params(case).items()},
+                                          n_pretest_max=10000))
+      mm0 = MM.TBRMatchedMarkets(data, p0)
+      mm0.count_max_designs()
+      mm0.geo_assignments
+    except Exception:
+      pass
   return MM.TBRMatchedMarkets(data, par), par
 
 
@@ -184,7 +197,7 @@ def apply_history(mm, case, name):
     # an earlier search on the same object with a tight budget and another n_designs, parameters restored afterwards
     saved = {k: copy.deepcopy(getattr(mm.parameters, k)) for k in ('budget_range', 'n_designs', 'treatment_share_range')}
     imp = sorted(float(v) for v in mm.geo_req_impact.values if v == v)
-    if imp:
+    if imp and float(mm.parameters.iroas) > 0:
       hi = imp[len(imp) // 2] / float(mm.parameters.iroas)
       mm.parameters.budget_range = (hi * 1e-3, hi)
     mm.parameters.n_designs = 2
@@ -382,7 +395,7 @@ def design_record(d, geos, gi_ids):
 def run_search(case, name, geos):
   """One search on a fresh object. Returns {'outcome': 'ok'|'ValueError'|'other:..', 'designs': [...]}."""
   try:
-    mm, par = build(case)
+    mm, par = build(case, with_history=True)
     apply_history(mm, case, name)
     res = mm.exhaustive_search() if name == 'exhaustive' else mm.greedy_search()
     gi = list(mm.data.geo_index) if mm.data.geo_index is not None else []
